@@ -125,6 +125,14 @@ def run(ck, ctx):
         if isinstance(n, ast.Name) and n.id in f.module.assigns and isinstance(f.module.assigns[n.id], (ast.List, ast.Tuple)):
             words += [x.value for x in f.module.assigns[n.id].elts if isinstance(x, ast.Constant) and isinstance(x.value, str)]
     if not words:
+        # ... or kept on the parser object by the constructor
+        from ..linemodel import LineMachine
+        consts = LineMachine(ctx).consts
+        for n in ast.walk(f.node):
+            if isinstance(n, ast.Attribute) and isinstance(n.value, ast.Name) and n.value.id == "self" and isinstance(consts.get(n.attr), (tuple, list)) \
+                    and consts[n.attr] and all(isinstance(x, str) for x in consts[n.attr]):
+                words += list(consts[n.attr])
+    if not words:
         raise AnalysisError("anchor vanished: the new-statement words of check_new_statement_start")
     for wd in sorted(set(words)):
         ck.ob("T-LINE.words", f"new-statement word {wd!r}", wd.strip() in STARTERS and wd != wd.rstrip(),
